@@ -399,10 +399,21 @@ func judgeC14(sc scenario, c *RefClosure, out BuildOut) (viol [][2]string) {
 			bad("unexpected-call", "%q happened %d times but is not in the reference closure", k, n)
 		}
 	}
+	for _, v := range traceBracketing(out.Trace) {
+		bad(v[0], "%s", v[1])
+	}
+	return
+}
+
+// traceBracketing checks the shape of a build trace: every start is answered by
+// exactly one success or failure, nothing ends that did not start, and "already"
+// is only said of work that completed.
+func traceBracketing(trace []string) (viol [][2]string) {
+	bad := func(sig, f string, a ...any) { viol = append(viol, [2]string{sig, fmt.Sprintf(f, a...)}) }
 	// trace bracketing
 	open := map[string]bool{}
 	done := map[string]bool{}
-	for _, ev := range out.Trace {
+	for _, ev := range trace {
 		sp := strings.SplitN(ev, " ", 2)
 		kind, key := sp[0], sp[1]
 		fam := kind[:strings.LastIndex(kind, "-")]
